@@ -5,6 +5,7 @@ import re
 from .. import gen
 from ..ref import bip32 as rb32, addr as raddr, path as rpath
 from .c14 import leaves
+from .. import longrun
 
 PROP = "C16"
 LEVEL = "exploration"
@@ -17,7 +18,7 @@ RULE = ("both networks x random seeds x accounts/intervals x every output-produc
         "wasabi_json) + wallets re-imported from each of the 12 version prefixes; every string leaf is classified by an "
         "independent network classifier (Base58 version byte, Bech32 hrp, SLIP-132 version, coin component of BIP44-shaped "
         "paths); distinct = distinct (monitor, case) digests"
-        " EXTENSIONS: + nodes the caller parsed with the other / the default network flag handed to the wallet, caller edits of returned version lists before an import, one listing of 2^15+600 rows in fast mode, accounts equal to meaningful numbers")
+        " EXTENSIONS: + nodes the caller parsed with the other / the default network flag handed to the wallet, caller edits of returned version lists before an import, one listing of 2^15+600 rows in fast mode, accounts equal to meaningful numbers, node-level testnet listings of K+3 rows per harvested threshold K (rows and their children classified)")
 LEVEL_TEXT = ("Every network-tagged string a real wallet emits is decoded independently and must carry the wallet's own "
               "network; a leaf that classifies as the other network is the violation, unclassifiable leaves are counted and "
               "ignored. Re-import from each of the 12 prefixes must set the network from the prefix alone and everything the "
@@ -177,6 +178,27 @@ def judge_reimport(ctx, case):
         scan(ctx, what.split(":")[0], val, tn, case, "reimport-%s%s%d" % (typ, net, purpose))
 
 
+def judge_long_node_listing(ctx, case):
+    tn = case["testnet"]
+
+    def more(parent, rows, positions, bad):
+        wrong = []
+        for j in positions[:64] + positions[-8:]:
+            r = rows[j]
+            out = [r.extended_public_key()]
+            if case["side"] == "prv":
+                out.append(r.extended_private_key())
+            if r.index < H or case["side"] == "prv":
+                out.append(r.ckd(index=0).extended_public_key())
+            for leaf in out:
+                if leaf_network(leaf) is not None and leaf_network(leaf) != tn:
+                    wrong.append((j, leaf[:12]))
+        if wrong:
+            bad.append(("wrong_network", "testnet" if tn else "mainnet", wrong[:3]))
+        ctx.extra["classified_leaves"] = ctx.extra.get("classified_leaves", 0) + 2 * len(positions[:64])
+    return longrun.judge_node_listing(ctx, "leaf_network", "C16", case, more=more)
+
+
 def run(ctx):
     rnd = ctx.rnd
     for j in range(ctx.scale(96, 5000)):
@@ -203,12 +225,20 @@ def run(ctx):
             scan(ctx, "huge_listing", [keys, [r[1:] for r in rows]], tn, case, "huge")
         except Exception as ex:  # noqa
             ctx.judge("leaf_network", False, case, "rows", ex, cls="huge|raised", mech="C16.emit.raised")
+    # ONE node-level listing call of n rows, n aimed at every threshold written down in the code under test (vpkg.harvest /
+    # vpkg.longrun): the rows, and what is derived below them, print the tree's network
+    for side in ("pub", "prv"):
+        for case in longrun.node_listing_cases(ctx, side, gen.rbytes(rnd, 32), wide=False):
+            case["testnet"] = True if ctx.rnd.random() < 0.8 else case["testnet"]
+            judge_long_node_listing(ctx, case)
     ctx.judge("classified_leaves", ctx.extra.get("classified_leaves", 0) > 0, {"classified": ctx.extra.get("classified_leaves", 0)},
               cls="count", mech="C16.nothing_classified")
 
 
 def replay(ctx, monitor, case):
     case.pop("what", None)
+    if "side" in case:
+        return judge_long_node_listing(ctx, case)
     if "version" in case:
         judge_reimport(ctx, case)
     else:
